@@ -30,8 +30,8 @@ prop("C13",
      rule="stream cases: 1-3 publishers x 1-3 topics x 1-3 subscribers (v3.1.1/v5, Receive Maximum 1/2/unlimited) through clients.Manager over net.Pipe, "
           "20-80 (thorough 50-500) sequence-numbered messages per publisher at QoS 0/1/2 or mixed; the subscriber-side arrival order per "
           "(subscriber, publisher, topic, qos) must be 1,2,3,... and complete. Every 8th case replays the two-worker witness of refute/C13.v on the "
-          "provider (memlockfree or mem) with a stub that holds message 1 until message 2 arrives. The witness of the open finding C13-close-handoff-inversion ('closerace': a durable subscriber with Receive Maximum 1 and queued QoS 1 messages, its connection ends, "
-          "the harness holds PacketsStore open while further messages are routed, the next connection must receive 1..N+K in order) is replayed on every run and is NOT generated. non-trivial = more than one message; distinct by case JSON.",
+          "provider (memlockfree or mem) with a stub that holds message 1 until message 2 arrives. Every 8th case is a 'closerace' (a durable subscriber with Receive Maximum 1 and queued QoS 1 messages, its connection ends, "
+          "the harness holds PacketsStore open while further messages are routed: the next connection must receive 1..N+K in order), every 8th a 'loadrace' (the same at the reconnect: the start-up load of the backlog is held while fresh messages are routed; QoS 0 and 1). non-trivial = more than one message; distinct by case JSON.",
      level_text="Theorem (coq/props/C13.v): for the number of routing workers found in topics/memlockfree/topics.go and topics/mem/topics.go by the translator "
                 "(coq/gen/Extracted.v, regenerated on every run), under EVERY schedule of the routing workers each subscriber is handed exactly the messages it must get, "
                 "in publication order (prefix at any time, equality at quiescence); refute/C13.v shows the statement false for two workers. Tied to the code by the translator "
